@@ -266,7 +266,7 @@ pub fn run<D: Dec>(rep: &mut Report) {
     states.insert(format!("{:?}", fresh), (fresh.clone(), vec![], 0));
     queue.push_back(format!("{:?}", fresh));
     // Default::default() must be the initial condition too
-    if let Ok(dd) = guarded(D::default) {
+    if let (false, Ok(dd)) = (ctor_overridden(), guarded(D::default)) {
         if dd != fresh {
             if let Some((cont, want, gotc)) = first_behavioural_difference(&dd) {
                 rep.violate(
